@@ -70,8 +70,8 @@ type subFact struct {
 }
 type msgFact struct {
 	Payload string
-	To      int  // subscriber index
-	Pub     span // publish step (acknowledged to the publisher at Pub.To)
+	To      int   // subscriber index
+	Pub     span  // publish step (acknowledged to the publisher at Pub.To)
 	Acked   *span // subscriber's acknowledgement, nil if never
 	QoS     byte
 }
@@ -84,13 +84,13 @@ type q2Fact struct {
 }
 
 type trace struct {
-	h        *History
-	journal  []fakeredis.Cmd
-	created  map[int]span           // session creation (first CONNACK)
-	subs     map[string][]subFact   // key client|filter
-	msgs     []msgFact
-	q2       []q2Fact
-	stepEnd  []int
+	h       *History
+	journal []fakeredis.Cmd
+	created map[int]span         // session creation (first CONNACK)
+	subs    map[string][]subFact // key client|filter
+	msgs    []msgFact
+	q2      []q2Fact
+	stepEnd []int
 }
 
 func redisBroker(addr string) (*broker.Broker, error) {
@@ -564,6 +564,22 @@ func gen(rng *rand.Rand, n int) History {
 	return h
 }
 
+// directed is a fixed history around one name collision: a client holds the shared subscription $share/g/t/a
+// and the plain subscription t/a at the same time and drops them one at a time (the durable store must key
+// subscriptions by their full name).
+func directed() History {
+	h := History{IDs: []string{"pub", "sub1", "s"}, V: []byte{4, 5, 5}}
+	sub := func(c int, f string, q byte) Step { return Step{Kind: "sub", C: c, Filter: f, QoS: q, RAP: true} }
+	h.Steps = []Step{{Kind: "connect", C: 0}, {Kind: "connect", C: 1}, {Kind: "connect", C: 2},
+		sub(2, "$share/g/t/a", 1), sub(2, "t/a", 2), {Kind: "pub", C: 0, Topic: "t/a", QoS: 1},
+		{Kind: "unsub", C: 2, Filter: "$share/g/t/a"}, {Kind: "ack", C: 2},
+		sub(2, "$share/g/t/a", 0), sub(1, "$share/g/t/a", 1), {Kind: "unsub", C: 2, Filter: "t/a"},
+		{Kind: "pub", C: 0, Topic: "t/a", QoS: 2}, {Kind: "disconnect", C: 2}, {Kind: "connect", C: 2},
+		sub(2, "t/a", 1), {Kind: "unsub", C: 2, Filter: "$share/g/t/a"}, {Kind: "unsub", C: 1, Filter: "$share/g/t/a"},
+		{Kind: "pub", C: 0, Topic: "t/a", QoS: 1}, {Kind: "ack", C: 2}}
+	return h
+}
+
 // Run is the entry point.
 func Run(r *monitor.Run) {
 	r.Level = "fault_enumeration"
@@ -571,6 +587,9 @@ func Run(r *monitor.Run) {
 	rng := r.Rand("histories")
 	for hi := 0; hi < nh; hi++ {
 		h := gen(rng, r.Pick(30, 45))
+		if hi == 0 {
+			h = directed()
+		}
 		tr, notes, err := execute(&h)
 		if err != nil {
 			r.Inconclusive(fmt.Sprintf("history %d: %v", hi, err))
@@ -583,7 +602,7 @@ func Run(r *monitor.Run) {
 		r.Count("journal_commands", int64(n))
 		r.Count("histories", 1)
 		var ks []int
-		if r.Quick() {
+		if r.Quick() && hi != 0 {
 			// stratified sample: step boundaries and points inside steps
 			set := map[int]bool{0: true, n: true}
 			for len(set) < min(40, n+1) {
